@@ -86,19 +86,27 @@ def gen_burst(rng, cid):
     # one more insertion beyond the limit, waited for
     v += 1
     evs.append(dict(op="set", k=fresh(), v=v, age_ms=0, fails=[]))
-    evs.append(dict(op="quiesce"))
+    evs.append(dict(op="quiesce", check_bound=True))
+    if rng.random() < 0.5:
+        # DeleteAll with a Set (of a key that is there, or of a new one) landing while its first cleanup runs
+        v += 1
+        evs.append(dict(op="delete_all_set", k=rng.choice(live) if live and rng.random() < 0.6 else fresh(), v=v, fails=[]))
+        evs.append(dict(op="quiesce"))
     return dict(id=cid, minage_ms=0, count=count, hasfn=True, events=evs, burst=True)
 
 
 def oracle_burst(ctx, case, out):
     stored, okcalls = {}, set()
+    bound_keys = None
     rep = dict(case=case, result=out["events"][-1])
     for ev, r in zip(case["events"], out["events"]):
         if r.get("panic"):
             ctx.violation("cache panicked: %s" % r["panic"], rep, "C20:panic")
             return
-        if ev["op"] in ("set", "set_nw"):
+        if ev["op"] in ("set", "set_nw", "delete_all_set"):
             stored[ev["k"]] = ev["v"]
+        if ev.get("check_bound"):
+            bound_keys = set(r["keys"])
         for c in r["calls"] or []:
             if c["ok"]:
                 okcalls.add((c["k"], c["v"]))
@@ -109,9 +117,11 @@ def oracle_burst(ctx, case, out):
             return
     if final - set(stored):
         ctx.violation("keys %s present but never stored" % sorted(final - set(stored)), rep, "C20:ghost")
-    if len(final) > case["count"]:
+    if bound_keys is None:
+        bound_keys = final
+    if len(bound_keys) > case["count"]:
         ctx.violation("%d entries remain after insertions beyond the limit %d although every cleanup succeeded and the cache is quiescent: count pruning stopped"
-                      % (len(final), case["count"]), rep, "C20:bound-after-race")
+                      % (len(bound_keys), case["count"]), rep, "C20:bound-after-race")
 
 
 def s_case(c):
